@@ -193,8 +193,19 @@ def run_case(case):
                     sig = 'C19/history/level%s' % ('0' if l == 0 else '>0')
                     if sig not in viol:
                         viol[sig] = {'signature': sig, 'what': obl.failed[0][0][:300], 'fsel': fe, 'l': l, 'b': b, 'model': ctx.model(), 'prior': prior_point(ref)}
-    # outside the domain
-    for pt in ([ref.lo[0] - 1.0, ref.lo[1] + ref.dx[0][1] / 2, ref.lo[2] + ref.dx[0][2] / 2], [ref.hi[0] + 0.5, ref.hi[1] + 0.5, ref.hi[2] + 0.5]):
+    # outside the domain: far away, and just beyond each of the six faces (a quarter of the finest cell; the other two
+    # coordinates at an interior cell centre of the coarsest level)
+    outside_pts = [[ref.lo[0] - 1.0, ref.lo[1] + ref.dx[0][1] / 2, ref.lo[2] + ref.dx[0][2] / 2], [ref.hi[0] + 0.5, ref.hi[1] + 0.5, ref.hi[2] + 0.5]]
+    fin = ref.nlev - 1
+    for d in range(3):
+        for side in (0, 1):
+            for frac in (0.25, 0.75):
+                pt = [ref.lo[e] + 1.5 * ref.dx[0][e] if ref.ncell[0][e] > 1 else ref.lo[e] + 0.5 * ref.dx[0][e] for e in range(3)]
+                pt[d] = (ref.lo[d] - frac * ref.dx[fin][d]) if side == 0 else (ref.hi[d] + frac * ref.dx[fin][d])
+                outside_pts.append(pt)
+    if common.TIER == 'quick':
+        outside_pts = outside_pts[:2] + outside_pts[2::2]
+    for pt in outside_pts:
         def opath(ctx, pt=pt):
             return query(mods, ref, '0', 0, 0, ctx, outside=pt)
         results, exhaustive, stats = core.explore(opath, max_paths=8)
@@ -202,7 +213,9 @@ def run_case(case):
         for ctx, obl in results:
             res.add_obl(obl)
             if obl.failed:
-                viol.setdefault('C19/outside-answered', {'signature': 'C19/outside-answered', 'what': obl.failed[0][0][:300], 'outside': pt, 'model': None})
+                far = pt in outside_pts[:2]
+                sig = 'C19/outside-answered' + ('' if far else '/near-face')
+                viol.setdefault(sig, {'signature': sig, 'what': obl.failed[0][0][:300], 'outside': pt, 'model': None})
 
     def canary(ctx):
         for l in range(ref.nlev):
